@@ -8,10 +8,11 @@ import NrfModel.Drv.Rf
 import NrfModel.Drv.NetS
 import NrfModel.Drv.Mesh
 import NrfModel.Drv.Ble
+import NrfModel.Drv.Structs
 
 open Nrf.Drv
 
-def allHandlers : List (String × Handler) := netHandlers ++ rfHandlers ++ netSHandlers ++ meshHandlers ++ bleHandlers
+def allHandlers : List (String × Handler) := netHandlers ++ rfHandlers ++ netSHandlers ++ meshHandlers ++ bleHandlers ++ structsHandlers
 
 def dispatch (line : String) : String :=
   match (line.splitOn " ").filter (· ≠ "") with
